@@ -66,6 +66,10 @@ type checkSpec struct {
 	Assumptions []string `json:"assumptions"`
 	Outside     []string `json:"outside"`
 	Filter      *violFilter `json:"claims"`
+	// NoNative: the harness runs against environment stubs that have no native
+	// counterpart (ufs with the OS replaced by recording stubs); counterexamples
+	// are reported from the engine alone and no native differential is run.
+	NoNative bool `json:"no_native"`
 }
 
 type knownFinding struct {
@@ -247,7 +251,12 @@ func cmdCheck(args []string) int {
 		}
 	}
 	nativeOK := 0
-	if len(vecs) > 0 {
+	if spec.NoNative {
+		for _, cv := range owners {
+			cv.Native, cv.Detail = "confirmed", "not replayed natively: the harness runs on OS stubs (engine counterexample)"
+		}
+	}
+	if len(vecs) > 0 && !spec.NoNative {
 		retries := ts.NativeRetries
 		if retries == 0 {
 			retries = 1
@@ -260,33 +269,53 @@ func cmdCheck(args []string) int {
 				multi[r.Harness] = true
 			}
 		}
-		var todo []nativeVector
-		back := map[int]int{}
-		for i, v := range vecs {
-			n := 1
-			if multi[v.Harness] {
-				n = retries
-			}
-			for k := 0; k < n; k++ {
-				id := len(todo)
-				back[id] = i
-				todo = append(todo, nativeVector{ID: id, Harness: v.Harness, Vars: v.Vars})
-			}
-		}
-		nres, err := s.runNative(spec.Pkg, allHarnesses, todo, workDir, 10*time.Second, false)
-		if err != nil {
-			inconclusive = append(inconclusive, "native replay failed: "+err.Error())
-		}
 		tries := map[int]int{}
-		for id, nr := range nres {
-			cv := owners[back[id]]
-			tries[back[id]]++
-			if cv.Native == "confirmed" {
+		// race counterexamples are replayed with a -race build (halt on first report)
+		for _, raceRun := range []bool{false, true} {
+			var todo []nativeVector
+			back := map[int]int{}
+			for i, v := range vecs {
+				if (owners[i].V.Kind == "race") != raceRun {
+					continue
+				}
+				n := 1
+				if multi[v.Harness] {
+					n = retries
+				}
+				for k := 0; k < n; k++ {
+					id := len(todo)
+					back[id] = i
+					grp := 0
+					if n > 1 {
+						grp = i + 1
+					}
+					todo = append(todo, nativeVector{Group: grp, ID: id, Harness: v.Harness, Vars: v.Vars})
+				}
+			}
+			if len(todo) == 0 {
 				continue
 			}
-			st, detail := classifyNative(cv.V, nr)
-			if st == "confirmed" || cv.Native == "" {
-				cv.Native, cv.Detail = st, detail
+			vecTimeout := 10 * time.Second
+			if len(multi) > 0 {
+				vecTimeout = 3 * time.Second
+			}
+			nres, err := s.runNative(spec.Pkg, allHarnesses, todo, workDir, vecTimeout, raceRun)
+			if err != nil {
+				inconclusive = append(inconclusive, "native replay failed: "+err.Error())
+			}
+			for id, nr := range nres {
+				cv := owners[back[id]]
+				if nr.Status == "skipped" {
+					continue
+				}
+				tries[back[id]]++
+				if cv.Native == "confirmed" {
+					continue
+				}
+				st, detail := classifyNative(cv.V, nr)
+				if st == "confirmed" || cv.Native == "" {
+					cv.Native, cv.Detail = st, detail
+				}
 			}
 		}
 		for i, cv := range owners {
@@ -359,6 +388,9 @@ func cmdCheck(args []string) int {
 			dvecs = append(dvecs, nativeVector{ID: len(dvecs), Harness: smp.Harness, Vars: smp.Vars})
 			dsamples = append(dsamples, smp)
 		}
+	}
+	if spec.NoNative {
+		dvecs = nil
 	}
 	if len(dvecs) > 0 {
 		nres, err := s.runNative(spec.Pkg, allHarnesses, dvecs, workDir, 10*time.Second, false)
